@@ -25,5 +25,28 @@ CHECKS["C03"] = dict(
                  "sequences beyond ~1000 elements and > 10^6-element select samples are out of reach"],
 )
 
+CHECKS["C22"] = dict(
+    kind="py", module="c22", design_ref="§3-C22",
+    technique="bounded-exhaustive enumeration of (delimiter, array) pairs through the real CLI code path, composed format -> read-back, against the identity model",
+    rule="arrays of length 1..3 over 18 strings (+ the delimiter) and length-20 arrays x @csv and @dsv(d) for all 93 printable ASCII d != '\"'; "
+         "a case is the (delimiter, array) pair; non-trivial = distinct pair",
+    level_text="Every (delimiter, array) pair of the bounded space is formatted by the real jq runner and read back by the real DSV input "
+               "path; the composed function must be the identity. Exhaustive over the stated alphabets.",
+    level_note="Runs through the __verif-batch hook (same clap parser and run_jq as main); an evenly spread slice is re-run as real "
+               "processes and must be byte-identical; every reported violation is localised and confirmed with real processes.",
+    assumptions=["strings outside the 18-string alphabet and arrays longer than 3 (except 20 copies) are out of scope"],
+)
+
 NOT_APPLICABLE = {}
-HOOK_COMMITS = []
+HOOK_COMMITS = ["4eebcf9"]
+
+# Per-property fragments: py/reg/cNN.py defines SPEC = dict(...) (same keys as above; may use `rust`).
+import glob as _glob, os as _os, importlib.util as _ilu
+for _f in sorted(_glob.glob(_os.path.join(_os.path.dirname(_os.path.abspath(__file__)), "reg", "c*.py"))):
+    _spec = _ilu.spec_from_file_location("reg_" + _os.path.basename(_f)[:-3], _f)
+    _m = _ilu.module_from_spec(_spec)
+    _m.rust = rust
+    _spec.loader.exec_module(_m)
+    CHECKS[_os.path.basename(_f)[:-3].upper()] = _m.SPEC
+    if hasattr(_m, "NOT_APPLICABLE_REASON"):
+        NOT_APPLICABLE[_os.path.basename(_f)[:-3].upper()] = _m.NOT_APPLICABLE_REASON
